@@ -409,7 +409,7 @@ def h_conditional(env):
     kvs = [var[n] for n in p["cons"]]
     ckind = env.choice("condition-kind", p.get("ckinds", ["unary-boolean", "function", "matrix"]))
     kkind = env.choice("consequence-kind", p.get("kkinds", ["matrix", "function"]))
-    rn = env.choice("return_neutral", [False, True])
+    rn = env.choice("return_neutral", p.get("rn", [False, True]))
     # the condition: concrete (it is branched on), non-boolean truthy/falsy results
     if ckind == "unary-boolean" and len(cvs) != 1:
         env.assume(False)
@@ -460,7 +460,11 @@ def _conditional_shapes(tier):
     scopes = [(["t"], ["q", "b"]), (["t"], ["t", "b"]), (["t", "g"], ["b"]), (["g", "b"], ["b", "q"])]
     if tier == "thorough":
         scopes += [(["t"], ["a", "q", "b"]), (["t", "g"], ["g", "q", "b"]), (["q", "t"], ["t", "q"])]
-    return [dict(cond=c, cons=k, steps=s) for c, k in scopes for s in ("one", "several")]
+    out = []
+    for c, k in scopes:
+        out.append(dict(cond=c, cons=k, steps="one"))
+        out += [dict(cond=c, cons=k, steps="several", rn=[rn]) for rn in (False, True)]     # (jobs of <= 400 paths)
+    return out
 
 
 # ------------------------------------------------------------------ expression relations
@@ -646,28 +650,25 @@ class _MiniEnv:
             return Raised(e, traceback.format_exc(limit=6))
 
 
-def _enumerate(items, tier, only=None):
+def _enumerate(items, tier, select=None):
     """all paths of the concrete harnesses of ``items`` = [(target, shape), ...] (odometer over
-    their choices), in a fixed order.  ``only``: execute the checks of that path alone (the
-    others are run up to their last choice, to keep the numbering) and stop after it."""
+    their choices), in a fixed order.  ``select``: the indexes whose checks are executed (the
+    other paths are only run up to their last choice, which keeps the numbering)."""
     paths, idx = [], 0
     for target, shape in items:
         harness, params = _HARNESSES[target], dict(shape, _tier=tier, _seed=0)
         prefix = []
         while True:
             env = _MiniEnv(params, prefix)
-            env.dry = only is not None and idx != only
+            env.dry = select is not None and idx not in select
             aborted = False
             try:
                 harness(env)
             except PathAbort:
                 aborted = True
             if not aborted:
-                if not env.dry:
-                    paths.append(dict(index=idx, target=target, shape=shape, choices=env.names, covered=env.covered,
-                                      obl=[[lab, o[0], o[1], o[2]] for lab, o in env.obl.items()]))
-                if only is not None and idx == only:
-                    return paths
+                paths.append(dict(index=idx, target=target, shape=shape, choices=env.names, covered=env.covered, dry=env.dry,
+                                  obl=[[lab, o[0], o[1], o[2]] for lab, o in env.obl.items()]))
                 idx += 1
             ks = env.decisions
             i = len(ks) - 1
@@ -679,6 +680,13 @@ def _enumerate(items, tier, only=None):
     return paths
 
 
+_MAX_PARENT_PATHS = 350     # a job of the engine is explored in one piece up to 400 paths
+
+
+def _chunk(n):
+    return max(1, -(-n // _MAX_PARENT_PATHS))
+
+
 def _worker_main(argv):
     import logging
     import traceback
@@ -686,7 +694,14 @@ def _worker_main(argv):
     job = json.loads(argv[0])
     out = dict(hashseed=os.environ.get("PYTHONHASHSEED"), set_order=list({"x", "y", "z", "w"}))
     try:
-        out["paths"] = _enumerate(job["items"], job.get("tier", "quick"), job.get("only"))
+        if job.get("chunk") is None:
+            out["paths"] = _enumerate(job["items"], job.get("tier", "quick"))
+        else:
+            # replay of one chunk of cases: count the cases first, then execute that chunk only
+            n = len(_enumerate(job["items"], job.get("tier", "quick"), select=()))
+            c = _chunk(n)
+            sel = set(range(job["chunk"] * c, min(n, (job["chunk"] + 1) * c)))
+            out["paths"] = [q for q in _enumerate(job["items"], job.get("tier", "quick"), select=sel) if not q["dry"]]
     except BaseException as e:  # noqa
         out["error"] = "%r\n%s" % (e, traceback.format_exc(limit=12))
     sys.stdout.write("\n@@RESULT@@" + json.dumps(out, default=str) + "\n")
@@ -765,23 +780,27 @@ def h_under_seed(env):
         _prove(env, "hashseed.subprocess-ran-all-cases-under-the-seed", ok, detail=lambda: res.get("error") or res.get("hashseed"))
         if not ok:
             return
-        k = env.choice("case", list(range(len(res["paths"]))))
-        path = res["paths"][k]
+        n = len(res["paths"])
+        c = _chunk(n)
+        k = env.choice("cases", list(range(-(-n // c))))
+        paths = res["paths"][k * c:(k + 1) * c]
     else:
-        # native replay: a fresh subprocess executes the one case again
-        k = env.choice("case", range(1000000))
-        res = _spawn(dict(job, only=k))
+        # native replay: a fresh subprocess executes that chunk of cases again
+        k = env.choice("cases", range(1000000))
+        res = _spawn(dict(job, chunk=k))
         ok = "error" not in res and str(res.get("hashseed")) == str(p["seed"])
         _prove(env, "hashseed.subprocess-ran-all-cases-under-the-seed", ok, detail=lambda: res.get("error") or res.get("hashseed"))
         if not ok:
             return
-        env.assume(bool(res["paths"]))
-        path = res["paths"][0]
-    for c in path["covered"]:
-        env.cover(c)
-    for lab, n, nfail, detail in path["obl"]:
-        _prove(env, lab, nfail == 0, detail=lambda: dict(seed=p["seed"], target=path["target"], shape=path["shape"],
-                                                         case=path["choices"], instances=n, failed=nfail, first=detail))
+        paths = res["paths"]
+        env.assume(bool(paths))
+    env.note("%d enumerated cases" % len(paths))
+    for path in paths:
+        for c_ in path["covered"]:
+            env.cover(c_)
+        for lab, n_, nfail, detail in path["obl"]:
+            _prove(env, lab, nfail == 0, detail=lambda: dict(seed=p["seed"], target=path["target"], shape=path["shape"],
+                                                             case=path["choices"], instances=n_, failed=nfail, first=detail))
 
 
 def _seeded_shapes(tier):
